@@ -41,6 +41,7 @@ type fsModelT struct {
 	failAt  int
 	crashAt int
 	pid     int
+	overwrites int // os.Create of a path that already exists
 }
 
 type fsCrash struct{ at int }
@@ -133,6 +134,7 @@ func fsOpen(fr *frame, path string, flag int) value {
 				return tuple{nilFile(), errInjected(fr, "open", path)}
 			}
 			node.data = nil
+			FS.overwrites++
 		}
 	} else {
 		if node == nil {
@@ -391,6 +393,7 @@ func init() {
 		cometPath + ".vFSFailAt":  func(fr *frame, a []value) value { FS.failAt = asInt(a[0]); return nil },
 		cometPath + ".vFSCrashAt": func(fr *frame, a []value) value { FS.crashAt = asInt(a[0]); return nil },
 		cometPath + ".vFSOps":     func(fr *frame, a []value) value { return FS.ops },
+		cometPath + ".vFSOverwrites": func(fr *frame, a []value) value { return FS.overwrites },
 		cometPath + ".vFSExists":  func(fr *frame, a []value) value { return FS.files[a[0].(string)] != nil },
 		cometPath + ".vFSList": func(fr *frame, a []value) value {
 			var names []string
@@ -415,6 +418,14 @@ func init() {
 			}
 			return -1
 		},
+		cometPath + ".vFSWrite": func(fr *frame, a []value) value {
+			n := &fsNode{}
+			for _, b := range a[1].([]value) {
+				n.data = append(n.data, b)
+			}
+			FS.files[a[0].(string)] = n
+			return nil
+		},
 		cometPath + ".vFSRemove": func(fr *frame, a []value) value { delete(FS.files, a[0].(string)); return nil },
 		cometPath + ".vFSLog": func(fr *frame, a []value) value {
 			var sb strings.Builder
@@ -435,7 +446,7 @@ func init() {
 							S.killAll()
 							main := S.threads[0]
 							main.ready = nil
-							S = &scheduler{threads: []*thread{main}, cur: main, locks: map[*value]*lockState{}, wgs: map[*value]*int{}}
+							S = &scheduler{threads: []*thread{main}, cur: main, locks: map[*value]*lockState{}, wgs: map[*value]*int{}, forkPick: S.forkPick}
 							return
 						}
 						panic(r)
